@@ -5,7 +5,8 @@
    tracker's vocabulary, by the trace correspondence of props/C05.py) emits.  The whole-trace statement comes first: for every history of
    client events the model accepts, every frame it emits is accepted by the tracker in the state the connection is in at that moment
    (H2/H2Trace.v: a simulation invariant between the model's connection state and the tracker's).  Regime of the model: requests are
-   complete GETs (END_STREAM | END_HEADERS), the events are SETTINGS, SETTINGS ACK, HEADERS, WINDOW_UPDATE and PING; header block lengths
+   complete GETs (END_STREAM | END_HEADERS), the events are SETTINGS, SETTINGS ACK, HEADERS, WINDOW_UPDATE, PING and RST_STREAM (fewer
+   than the 17 quick resets that trigger the rapid-reset GOAWAY); header block lengths
    and the two frames of the server preface are outside it.  Frames outside this regime are judged by the extracted tracker only. *)
 From Coq Require Import List.
 From LV Require Import Base.Bytes Gen.GenH2 H2.H2Flow H2.H2FlowProofs H2.H2Legal H2.H2LegalProofs H2.H2Trace.
